@@ -405,12 +405,19 @@ class EnvironBuilder:
         .. versionadded:: 0.15
         """
         headers = Headers(EnvironHeaders(environ))
+
+        def as_url_path(value: str) -> str:
+            # The environ values are decoded text but the arguments are
+            # URL paths, quote what would be read as URL syntax.
+            value = _wsgi_decoding_dance(value)
+            return value.replace("%", "%25").replace("?", "%3F").replace("#", "%23")
+
         out = {
-            "path": _wsgi_decoding_dance(environ["PATH_INFO"]),
+            "path": as_url_path(environ["PATH_INFO"]),
             "base_url": cls._make_base_url(
                 environ["wsgi.url_scheme"],
                 headers.pop("Host"),
-                _wsgi_decoding_dance(environ["SCRIPT_NAME"]),
+                as_url_path(environ["SCRIPT_NAME"]),
             ),
             "query_string": _wsgi_decoding_dance(environ["QUERY_STRING"]),
             "method": environ["REQUEST_METHOD"],
